@@ -228,6 +228,13 @@ def sum_and_index():
         return {
             'affine': lambda: 2.0 * x + y + 1.0,
             'affine-bc': lambda: x + z + matrix([1.0, 2.0, 3.0]),
+            'lin-matrix': lambda: matrix([float(i) for i in range(1, 10)],
+                                         (3, 3)) * x + z,
+            'lin-row': lambda: matrix([1.0, -2.0, 0.5], (1, 3)) * x + y,
+            'lin-row-only': lambda: matrix([1.0, -2.0, 0.5], (1, 3)) * x + z,
+            'lin-sparse': lambda: spmatrix([1.0, 2.0, -3.0], [0, 2, 1],
+                                           [1, 1, 2], (3, 3)) * x - 2.0 * y,
+            'lin-scalar-var': lambda: 3.0 * z + matrix([1.0, 2.0, 3.0]),
             'max2': lambda: mmax(x, y) + x,
             'max2-bc': lambda: mmax(x, y) + mmax(z, 1.0) + z,
             'min2': lambda: mmin(x, y, 0.5) - y + 2.0,
